@@ -101,7 +101,7 @@ def main():
         'violation_signatures': len(sigs),
         'runs_that_left_blocks_to_the_manager': counts.get('left_blocks_to_the_manager', 0),
         'flaky_verdicts': counts.get('flaky', 0),
-        'top_violation_signatures': dict(sorted(sigs.items(), key=lambda kv: -kv[1])[:40]),
+        'violation_signature_counts': dict(sorted(sigs.items(), key=lambda kv: (-kv[1], kv[0]))),
     }
     if evaluations != counts.get('allocations_total', -1) and not any(v.signature.startswith('harness|') for v in viols):
         # every index must have been run exactly once (cases whose fault-free run already fails are not swept)
